@@ -152,6 +152,21 @@ def expand_gates_macro(text):
     return "\n".join(out)
 
 
+def check_gated_calls(text):
+    """Soundness of dropping precondition failures at gated call sites (check.py classifies them as
+    duplicates): every `call(.., m: ..)` of a handle must require nothing but gates, `extra` and
+    invariant parts, all of which are asserted separately in front of the call."""
+    lines = text.split("\n")
+    for i, line in enumerate(lines):
+        if re.match(r"^\s*pub fn call<.*\bm: ", line) and i + 1 < len(lines) and lines[i + 1].strip() == "requires":
+            j = i + 2
+            while lines[j].strip() != "ensures":
+                t = lines[j].strip()
+                if t and not (t.startswith("GATES!(") or t.startswith("self.extra(") or t.startswith("self.needs_inv(") or t.startswith("//")):
+                    raise WeaveError(f"handle call has a precondition that is not asserted at call sites: {t}")
+                j += 1
+
+
 def add_unchecked_twins(text):
     """For every `pub fn call<..>(&self, h, g, c, m ..) requires .. ensures .. {` of a handle type, add
     `call_unchecked`: same signature and postcondition, no precondition, no body.  It is referenced only
@@ -192,17 +207,23 @@ def add_unchecked_twins(text):
 def expand_inv_macro(text, parts):
     out = []
     for line in text.split("\n"):
-        m = re.match(r"^(\s*)(.*?)INV!\((.*)\)\s*,?\s*$", line)
+        m = re.match(r"^(\s*)(.*?)INV(X?)!\((.*)\)\s*,?\s*$", line)
         if m and not line.lstrip().startswith("//"):
-            ind, pre, args = m.groups()
-            for name, tag in parts:
-                out.append(f"{ind}{pre}inv_{name}({args}), /* {tag} */")
+            ind, pre, x, args = m.groups()
+            skip = ()
+            if x:
+                sk, args = args.split("|", 1)
+                skip, args = set(sk.split()), args.strip()
+            for pi, (name, tag) in enumerate(parts):
+                if name in skip:
+                    continue
+                out.append(f"{ind}{pre.replace('$P', str(pi))}inv_{name}({args}), /* {tag} */")
         else:
             out.append(line)
     return "\n".join(out)
 
 
-def fill_body(label, body, invs, tokens, nloops, parts, nogate=()):
+def fill_body(label, body, invs, tokens, nloops, parts, nogate=(), extratag='@C04 operator-specific side condition of the call'):
     # loop invariants: `{ __inv!(k);`  ->  `invariant ... {`
     def repl(m):
         k = int(m.group(1))
@@ -229,8 +250,9 @@ def fill_body(label, body, invs, tokens, nloops, parts, nogate=()):
                 lines.append(f"{ind}    proof {{")
                 for gi, (gn, gp, gt) in enumerate(gates_mod.GATES):
                     lines.append(f"{ind}        assert(__r.gate({gi}, *h, g@, *c, __m)); /* @{gp} {gt} */ {site}")
-                for name, tag in parts:
-                    lines.append(f"{ind}        assert(__r.needs_inv(g@, __m) ==> inv_{name}(*h, __r.post(g@, __m), *c)); /* {tag} (at the yield) */ {site}")
+                lines.append(f"{ind}        assert(__r.extra(*h, g@, *c, __m)); /* {extratag} */ {site}")
+                for pi, (name, tag) in enumerate(parts):
+                    lines.append(f"{ind}        assert(__r.needs_inv(g@, __m, {pi}) ==> inv_{name}(*h, __r.post(g@, __m), *c)); /* {tag} (at the yield) */ {site}")
                 lines.append(f"{ind}    }}")
                 lines.append(f"{ind}    __r.call(h, g, c, __m); {site}")
                 lines.append(f"{ind}}}")
@@ -258,7 +280,12 @@ def weave(op_file, cfg):
     tokens = dict((a, b.strip()) for a, b in re.findall(r"^//@token\s+(\w+)\s*=>\s*(.+)$", text, re.M))
     ignores = dict((a, b) for a, b in re.findall(r"^//@ignore\s+(\w+)\s*=\s*(.*)$", text, re.M))
     nogate = set(sum((x.split() for x in re.findall(r"^//@nogate[ \t]+(.+)$", text, re.M)), []))
+    et = re.search(r"^//@extratag[ \t]+(@C\d+.*)$", text, re.M)
+    extratag = et.group(1).strip() if et else "@C04 operator-specific side condition of the call"
     text, invs = take_invariants(text)
+    for pi, (name, _) in enumerate(parts):
+        text = re.sub(r"\$PART_" + name + r"\b", f"{pi} /*{name}*/", text)
+    check_gated_calls(text)
     text = add_unchecked_twins(text)
     text = expand_gates_macro(text)
     text = expand_inv_macro(text, parts)
@@ -285,7 +312,7 @@ def weave(op_file, cfg):
         if lab not in handlers:
             raise WeaveError(f"no closure labelled `{lab}` in the extraction of {op}")
         h = handlers[lab]
-        body, nsites = fill_body(lab, h["body"], invs, tokens, h["loops"], parts, nogate)
+        body, nsites = fill_body(lab, h["body"], invs, tokens, h["loops"], parts, nogate, extratag)
         used.add(lab)
         meta["handlers"][lab] = {"sites": nsites, "trace_events": h["trace_events"], "loops": h["loops"], "lines": body.count("\n") + 1}
         meta["sites"] += nsites
